@@ -285,6 +285,11 @@ func GenCase16(r *lib.RNG) Case16 {
 				if ig.Event.Inputs[e].Column == old {
 					ig.Event.Inputs[e].Column = nw
 				}
+				for q := range ig.Event.Inputs[e].Components {
+					if ig.Event.Inputs[e].Components[q].Column == old {
+						ig.Event.Inputs[e].Components[q].Column = nw
+					}
+				}
 			}
 			for e := range ig.Notification.Columns {
 				if ig.Notification.Columns[e] == old {
